@@ -1,4 +1,5 @@
 import Dbg.Spec.C03
+import Dbg.Lemmas.GraphProofs
 /-! # C03 — Extensions and edges denote exactly the real adjacencies, symmetrically
 
 Proved so far, for every graph of the model (any nodes, any K): a link returned by `find_link` points to a node whose
@@ -12,89 +13,66 @@ open Compress (Seq Base Exts rc extend Node)
 open Walk (Dir)
 variable {D : Type}
 
-theorem searchKmer_sound (g : G D) (km : Seq) (side : Dir) (i : Nat) (h : searchKmer g km side = some i) :
-    ∃ nd, g.nodes[i]? = some nd ∧ termKmer g.K nd.seq side = km := by
-  unfold searchKmer at h
-  rw [List.findIdx?_eq_some_iff_getElem] at h
-  obtain ⟨hi, hp, _⟩ := h
-  exact ⟨g.nodes[i], by simp [hi], by simpa using hp⟩
+/-- **C03 (pruning, k-mer tables).** `remove_censored_exts` keeps keys and payloads and keeps a recorded extension
+    exactly when its (canonical) target is a valid k-mer; the sharded variant drops an extension exactly when its target
+    was seen (`all_kmers`) but is not valid. -/
+theorem C03_prune_exact {P : Type} (st : Bool) (T : List (Compress.Entry P)) (all : List Seq) :
+    ((Filter.removeCensoredExts st T).length = T.length ∧
+      ∀ (x : Nat) (e1 : Compress.Entry P), (Filter.removeCensoredExts st T)[x]? = some e1 →
+        ∃ e0 : Compress.Entry P, T[x]? = some e0 ∧ e1.key = e0.key ∧ e1.data = e0.data ∧ e1.exts.val < 256 ∧
+          ∀ d b, Filter.has e1.exts d b ↔ Filter.has e0.exts d b ∧ Filter.extTarget st e0.key b d ∈ T.map (·.key)) ∧
+    ((Filter.removeCensoredExtsSharded st T all).length = T.length ∧
+      ∀ (x : Nat) (e1 : Compress.Entry P), (Filter.removeCensoredExtsSharded st T all)[x]? = some e1 →
+        ∃ e0 : Compress.Entry P, T[x]? = some e0 ∧ e1.key = e0.key ∧ e1.data = e0.data ∧
+          ∀ d b, Filter.has e1.exts d b ↔ Filter.has e0.exts d b ∧
+            ¬ (Filter.extTarget st e0.key b d ∉ T.map (·.key) ∧ Filter.extTarget st e0.key b d ∈ all)) :=
+  ⟨Filter.removeCensored_exact st T, Filter.removeCensoredSharded_exact st T all⟩
 
-/-- a k-mer is found as a node end exactly when some node starts (left map) / ends (right map) with it -/
-theorem searchKmer_complete (g : G D) (km : Seq) (side : Dir) :
-    (searchKmer g km side).isSome ↔ ∃ nd ∈ g.nodes, termKmer g.K nd.seq side = km := by
-  unfold searchKmer
-  constructor
-  · intro h
-    obtain ⟨i, hi⟩ := Option.isSome_iff_exists.mp h
-    rw [List.findIdx?_eq_some_iff_getElem] at hi
-    obtain ⟨hlt, hp, _⟩ := hi
-    exact ⟨g.nodes[i], List.getElem_mem hlt, by simpa using hp⟩
-  · rintro ⟨nd, hm, he⟩
-    cases hf : List.findIdx? (fun nd => termKmer g.K nd.seq side == km) g.nodes with
-    | some _ => rfl
-    | none =>
-      rw [List.findIdx?_eq_none_iff] at hf
-      have := hf nd hm
-      simp [he] at this
+/-- **C03 (pruning, graph).** `get_valid_exts` reports an extension exactly when it is recorded, its extended
+    terminal k-mer resolves through `find_link`, and the node it resolves to is valid. -/
+theorem C03_valid_exts_exact (g : G D) (id : Nat) (valid : Option (List Nat)) (nd : Node D) (h : g.nodes[id]? = some nd) :
+    ∃ e, getValidExts g id valid = some e ∧
+      ∀ d b, Filter.has e d b ↔ Filter.has nd.exts d b ∧ extOk g nd valid d b := getValidExts_exact g id valid nd h
 
-/-- **`find_link` is sound.** -/
-theorem findLink_sound (g : G D) (km : Seq) (d : Dir) (v : Nat) (s : Dir) (f : Bool)
-    (h : findLink g km d = some (v, s, f)) :
-    ∃ nd, g.nodes[v]? = some nd ∧ termKmer g.K nd.seq s = (if f then rc km else km) ∧
-      (f = false → s = d.flip) ∧ (f = true → s = d ∧ g.stranded = false) := by
-  unfold findLink at h
-  cases d with
-  | L =>
-    simp only at h
-    cases h1 : searchKmer g km .R with
-    | some idx =>
-      simp only [h1, Option.some.injEq, Prod.mk.injEq] at h
-      obtain ⟨rfl, rfl, rfl⟩ := h
-      obtain ⟨nd, e1, e2⟩ := searchKmer_sound g km .R _ h1
-      exact ⟨nd, e1, by simpa using e2, by simp [Dir.flip], by simp⟩
-    | none =>
-      simp only [h1] at h
-      by_cases hs : g.stranded = true
-      · simp [hs] at h
-      · have hs' : g.stranded = false := by cases hh : g.stranded <;> simp_all
-        simp only [hs', Bool.not_false, if_true] at h
-        cases h2 : searchKmer g (rc km) .L with
-        | some idx =>
-          simp only [h2, Option.some.injEq, Prod.mk.injEq] at h
-          obtain ⟨rfl, rfl, rfl⟩ := h
-          obtain ⟨nd, e1, e2⟩ := searchKmer_sound g (rc km) .L _ h2
-          exact ⟨nd, e1, by simpa using e2, by simp, by simp [hs']⟩
-        | none => simp [h2] at h
-  | R =>
-    simp only at h
-    cases h1 : searchKmer g km .L with
-    | some idx =>
-      simp only [h1, Option.some.injEq, Prod.mk.injEq] at h
-      obtain ⟨rfl, rfl, rfl⟩ := h
-      obtain ⟨nd, e1, e2⟩ := searchKmer_sound g km .L _ h1
-      exact ⟨nd, e1, by simpa using e2, by simp [Dir.flip], by simp⟩
-    | none =>
-      simp only [h1] at h
-      by_cases hs : g.stranded = true
-      · simp [hs] at h
-      · have hs' : g.stranded = false := by cases hh : g.stranded <;> simp_all
-        simp only [hs', Bool.not_false, if_true] at h
-        cases h2 : searchKmer g (rc km) .R with
-        | some idx =>
-          simp only [h2, Option.some.injEq, Prod.mk.injEq] at h
-          obtain ⟨rfl, rfl, rfl⟩ := h
-          obtain ⟨nd, e1, e2⟩ := searchKmer_sound g (rc km) .R _ h2
-          exact ⟨nd, e1, by simpa using e2, by simp, by simp [hs']⟩
-        | none => simp [h2] at h
+/-- every reported edge comes from a recorded extension whose extended terminal k-mer `find_link` resolved -/
+theorem C03_edges_justified (g : G D) (id : Nat) (d : Dir) (es : List (Nat × Dir × Bool)) (h : findEdges g id d = some es)
+    (e : Nat × Dir × Bool) (he : e ∈ es) :
+    ∃ nd b, g.nodes[id]? = some nd ∧ Filter.has nd.exts d b ∧ findLink g (extend (termKmer g.K nd.seq d) b d) d = some e := by
+  unfold findEdges at h
+  cases hn : g.nodes[id]? with
+  | none => rw [hn] at h; cases h
+  | some nd =>
+    rw [hn] at h
+    simp only [Option.some.injEq] at h
+    subst h
+    rw [List.mem_filterMap] at he
+    obtain ⟨b, _, hb⟩ := he
+    by_cases hh : nd.exts.hasExt d b.val = true
+    · rw [if_pos hh] at hb
+      exact ⟨nd, b, rfl, (Filter.hasExt_iff nd.exts d b).mp hh, hb⟩
+    · rw [if_neg hh] at hb; cases hb
 
-/-- link lookups do not read extensions: replacing every node's extension byte leaves `find_link` unchanged
-    (so the in-place, sequential update of `fix_exts` is harmless) -/
-theorem findLink_exts_irrelevant (g : G D) (f : Node D → Exts) (km : Seq) (d : Dir) :
-    findLink { g with nodes := g.nodes.map fun n => { n with exts := f n } } km d = findLink g km d := by
-  have hs : ∀ side k, searchKmer { g with nodes := g.nodes.map fun n => { n with exts := f n } } k side = searchKmer g k side := by
-    intro side k
-    simp [searchKmer, List.findIdx?_map, Function.comp_def]
-  unfold findLink
-  simp only [hs]
+/-- **C03 (walks).** For any walk whose steps follow reported edges (in either direction) through a graph whose nodes
+    have at least `K` bases: `sequence_of_path` never panics and the k-mers of the spelled sequence are exactly the k-mers
+    of the walked nodes in walking orientation, in order (every step is a `K-1` overlap: `edge_overlap`). -/
+theorem C03_walk_sequence (g : G D) (hK : 1 ≤ g.K) (hl : ∀ (i : Nat) (n : Node D), g.nodes[i]? = some n → g.K ≤ n.seq.length)
+    (p0 : Nat × Dir) (rest : List (Nat × Dir)) (h0 : (g.nodes[p0.1]?).isSome) (hall : ∀ p ∈ rest, (g.nodes[p.1]?).isSome)
+    (hch : ChainStep g p0 rest) :
+    ∃ S, sequenceOfPath g (p0 :: rest) = some S ∧ Compress.windowsOf g.K S = (p0 :: rest).flatMap (orientedKmers g) :=
+  walk_sequence g hK hl p0 rest h0 hall hch
+
+/-- **C03 (best path).** `max_path` returns a walk for every graph, score and solidity predicate: consecutive entries
+    follow reported edges, every node exists, no node is visited twice. -/
+theorem C03_maxPath_walk (g : G D) (score : D → Int) (solid : D → Bool) : IsWalk g (maxPath g score solid) :=
+  maxPath_walk g score solid
+
+/-- the spelled best path consists of exactly the k-mers of its nodes -/
+theorem C03_maxPath_sequence (g : G D) (hK : 1 ≤ g.K) (hl : ∀ (i : Nat) (n : Node D), g.nodes[i]? = some n → g.K ≤ n.seq.length)
+    (score : D → Int) (solid : D → Bool) (p0 : Nat × Dir) (rest : List (Nat × Dir)) (hp : maxPath g score solid = p0 :: rest) :
+    ∃ S, sequenceOfPath g (maxPath g score solid) = some S ∧
+      Compress.windowsOf g.K S = (maxPath g score solid).flatMap (orientedKmers g) := by
+  have hw := maxPath_walk g score solid
+  rw [hp] at hw ⊢
+  exact walk_sequence g hK hl p0 rest (hw.nodes p0 (by simp)) (fun p h => hw.nodes p (by simp [h])) (hw.chain p0 rest rfl)
 
 end Graph
